@@ -26,7 +26,7 @@ from ..common import const_int, seg, short
 from ..consteval import Unknown, fold_in
 from ..linear import linform
 from ..model import AnalysisError, walk_no_nested
-from ..paths import calls_in
+from ..paths import calls_in, function_paths
 from ..ppgram import GrammarEval, oneof_strings
 from ..report import Ctx
 from .c01 import riscv_map
@@ -324,46 +324,199 @@ def once_rule(ctx: Ctx, pp_) -> None:
     r.floor(4)
 
 
+def _counter_loop(f, start_expr: str = "start_address"):
+    """(counter local, its loop): the local initialised from self.start_address and augmented inside a for-loop over self.text."""
+    init = None
+    for n in f.node.body:
+        if isinstance(n, (ast.Assign, ast.AnnAssign)):
+            t = n.targets[0] if isinstance(n, ast.Assign) else n.target
+            if isinstance(t, ast.Name) and n.value is not None and ast.unparse(n.value) == f"{f.params[0]}.{start_expr}":
+                init = t.id
+    loop = next((n for n in f.node.body if isinstance(n, ast.For) and ast.unparse(n.iter) == f"{f.params[0]}.text"), None)
+    return init, loop
+
+
+def _entry_alias(loop: ast.For) -> dict:
+    """for line_number, line, line_parsed in self.text  ->  the third target is the entry E"""
+    t = loop.target
+    if isinstance(t, ast.Tuple) and len(t.elts) == 3 and all(isinstance(x, ast.Name) for x in t.elts):
+        return {t.elts[0].id: "N", t.elts[1].id: "L", t.elts[2].id: "E"}
+    raise AnalysisError("anchor vanished: `for line_number, line, line_parsed in self.text`")
+
+
 def addr_rule(ctx: Ctx) -> None:
+    """The label pass and the emission pass keep their address counters in lock-step.
+
+    For each pass, "the counter advances by X on this entry" is recovered as a boolean function of the
+    entry (the disjunction, over the paths through one loop iteration that add X, of the tests they
+    passed, with local aliases substituted) and compared with the required function as a truth table."""
+    from ..flowspec import merged_result
+    from ..parsershape import normal_flow
+    from ..pathsym import conj, disj, iteration, same_function, sym_events, tests_of
+    from ..symflow import Printer
     m = ctx.model
-    r = ctx.rule("R04.addr", "address counters in lock-step; pc-relative operands are label + offset - address")
-    pl = m.method("RiscvParser", "_process_labels", own=True)
-    wi = m.method("RiscvParser", "_write_instructions", own=True)
-    t1 = " ".join(ast.unparse(pl.node).split())
-    t2 = " ".join(ast.unparse(wi.node).split())
-    r.check("instruction_address = self.start_address" in t1 and "address_count: int = self.start_address" in t2, "start", pl.loc(),
-            "the two passes do not start at the same address")
-    r.check("if mnemonic is not None and mnemonic.lower() in instruction_map: instruction_address += instruction_map[mnemonic.lower()].length" in t1,
-            "label-pass|advance", pl.loc(), "the label pass does not advance by the instruction length exactly for entries with a map mnemonic")
-    r.check("mnemonic = line_parsed if type(line_parsed) == str else line_parsed.mnemonic" in t1, "label-pass|ecall", pl.loc(),
-            "string entries (ecall/ebreak) are not counted by the label pass")
-    r.check("isinstance(line_parsed, str) and line_parsed != 'ecall' and (line_parsed != 'ebreak')" in t1, "label-pass|label-lines", pl.loc(),
-            "stand-alone label lines are no longer recognised as 'a string that is not ecall/ebreak'")
-    r.check("address_count += instruction_map[line_parsed.mnemonic.lower()].length" in t2 and "address_count += ECALL.length" in t2
-            and "address_count += EBREAK.length" in t2, "emit-pass|advance", wi.loc(), "the emission pass does not advance once per emitted instruction")
-    r.check("if line_parsed.mnemonic is None or line_parsed.mnemonic.lower() not in instruction_map: raise ParserSyntaxException" in t2,
-            "emit-pass|unknown", wi.loc(), "an entry without a map mnemonic is no longer rejected (the two counters could diverge)")
-    r.check("self.state.instruction_memory.write_instructions(instructions)" in t2, "emit-pass|store", wi.loc(), "instructions are not stored consecutively")
-    wis = m.method("InstructionMemory", "write_instructions", own=True)
+    r = ctx.rule("R04.addr", "address counters in lock-step (truth functions per entry kind); pc-relative operands are label + offset - address")
+    pl = m.method("RiscvParser", "_process_labels")
+    wi = m.method("RiscvParser", "_write_instructions")
+    c1, l1 = _counter_loop(pl)
+    c2, l2 = _counter_loop(wi)
+    r.check(c1 is not None and c2 is not None and l1 is not None and l2 is not None, "start", pl.loc(),
+            "the two passes do not both count from self.start_address over self.text")
+    if not (c1 and c2 and l1 is not None and l2 is not None):
+        return
+    LABEL = "(isinstance(E, str) and E != 'ecall' and E != 'ebreak')"
+    MN = "(E if type(E) == str else E.mnemonic)"
+
+    def advances(f, counter, loop):
+        return advances_of(ctx, f, counter, loop)
+
+    # ---- label pass: advance by the map class's length exactly for entries that have a map mnemonic (ecall/ebreak are strings in the map)
+    al, incs, raises, _ = advances(pl, c1, l1)
+    from ..symflow import parse_expr
+    sp = Printer(m, [], {}, canonical=True)
+    step = sp.show(parse_expr(f"instruction_map[{MN}.lower()].length"))
+    want = {step: f"(not {LABEL}) and {MN} is not None and {MN}.lower() in instruction_map"}
+    for k in sorted(set(incs) - {"0"} | set(want)):
+        ok, shown = (False, "never") if k not in incs else same_function(m, disj(incs[k]), want.get(k, "False"), al)
+        r.check(ok, f"label-pass|advance:{k}", pl.loc(l1),
+                f"the label pass adds `{k}` to its address exactly when `{shown}`; required: "
+                f"`{want.get(k, 'never')}` (E = the entry; a stand-alone label is a string other than ecall/ebreak)")
+    # ---- emission pass
+    emit_pass_checks(ctx, r, advances, wi, c2, l2, sp)
+    _rest_of_addr_rule(ctx, r, wi, c2, l2)
+
+
+def emit_counter(ctx: Ctx):
+    wi = ctx.model.method("RiscvParser", "_write_instructions")
+    c2, l2 = _counter_loop(wi)
+    if c2 is None or l2 is None:
+        raise AnalysisError("anchor vanished: the emission pass's address counter / loop over self.text")
+    return wi, c2, l2
+
+
+def advances_of(ctx: Ctx, f, counter, loop):
+    """{canonical increment: [path conditions]} plus raising conditions, over one iteration of `loop`."""
+    from ..pathsym import conj, iteration, sym_events, tests_of
+    from ..symflow import Printer
+    m = ctx.model
+    al = _entry_alias(loop)
+    pr = Printer(m, f.params, al, canonical=True)
+    incs: dict = {}
+    raises: list = []
+    calls: list = []
+    for p in function_paths(f.node):
+        it = iteration(p, loop)
+        if it is None:
+            continue
+        evs = sym_events(p, keep={counter})
+        body = [se for se in evs if it[0] < se.index < it[1]]
+        cond = conj(tests_of(evs, it[0] + 1, it[1]))
+        adds = [se.node for se in body if se.event.kind == "stmt" and isinstance(se.node, ast.AugAssign)
+                and isinstance(se.node.target, ast.Name) and se.node.target.id == counter]
+        rebinds = [se.node for se in body if se.event.kind == "stmt" and isinstance(se.node, ast.Assign)
+                   and isinstance(se.node.targets[0], ast.Name) and se.node.targets[0].id == counter]
+        if rebinds or any(not isinstance(a.op, ast.Add) for a in adds):
+            incs.setdefault("<rebound>", []).append(cond)
+            continue
+        if p.term == "raise":
+            raises.append((cond, body[-1].node if body else None))
+            continue
+        key = " + ".join(sorted(pr.show(a.value) for a in adds)) if adds else "0"
+        incs.setdefault(key, []).append(cond)
+        for se in body:
+            for c in calls_in(se.node):
+                calls.append((c, se))
+    return al, incs, raises, calls
+
+
+def emit_pass_checks(ctx: Ctx, r, advances, wi, c2, l2, sp=None) -> None:
+    from ..pathsym import disj, iteration, same_function
+    from ..symflow import Printer, parse_expr
+    m = ctx.model
+    if sp is None:
+        sp = Printer(m, [], {}, canonical=True)
+    al, incs, raises, calls = advances(wi, c2, l2)
+    estep = sp.show(parse_expr("instruction_map[E.mnemonic.lower()].length"))
+    want = {
+        "ECALL.length": "isinstance(E, str) and E == 'ecall'",
+        "EBREAK.length": "isinstance(E, str) and E == 'ebreak'",
+        estep: "not isinstance(E, str) and E.mnemonic is not None and E.mnemonic.lower() in instruction_map",
+    }
+    # issubclass(...) tests select how the instruction is built, not whether the address advances: they drop out of the table
+    for k in sorted(set(incs) - {"0"} | set(want)):
+        ok, shown = (False, "never") if k not in incs else same_function(m, disj(incs[k]), want.get(k, "False"), al)
+        r.check(ok, f"emit-pass|advance:{k}", wi.loc(l2),
+                f"the emission pass adds `{k}` to its address exactly when `{shown}`; required: `{want.get(k, 'never')}`")
+    ok, shown = same_function(m, disj([c for c, _ in raises]),
+                              "not isinstance(E, str) and (E.mnemonic is None or E.mnemonic.lower() not in instruction_map)", al) if raises else (False, "never")
+    r.check(ok, "emit-pass|unknown", wi.loc(l2), f"an entry is rejected exactly when `{shown}`; required: every non-string entry without a "
+            "map mnemonic (otherwise the two counters could diverge)")
+    # every emitted instruction is appended on a path that also advances (once) -- and the other way round.
+    # The issubclass chain is exhaustive when every class of the map derives from one of the tested formats:
+    # then the path on which all of them fail does not exist.
+    tested = set()
+    for n in ast.walk(l2):
+        if isinstance(n, ast.Call) and isinstance(n.func, ast.Name) and n.func.id == "issubclass" and len(n.args) == 2:
+            k = m.resolve_class(wi.module, n.args[1])
+            if k is not None:
+                tested.add(k)
+    imap = riscv_map(ctx)
+    exhaustive = bool(tested) and all(any(m.is_subclass(c, t) for t in tested) for c in imap.values())
+    r.check(exhaustive, "emit-pass|formats", wi.loc(l2), "an instruction class of the map derives from none of the formats the emission pass "
+            "knows how to build: " + ", ".join(sorted(c.name for c in imap.values() if not any(m.is_subclass(c, t) for t in tested))[:5]))
+    for p in function_paths(wi.node):
+        it = iteration(p, l2)
+        if it is None or p.term == "raise":
+            continue
+        evs = [e for i, e in enumerate(p.events) if it[0] < i < it[1]]
+        sub = [e for e in evs if e.kind == "test" and "issubclass(" in ast.unparse(e.node)]
+        if exhaustive and sub and not any(e.pol for e in sub):
+            continue
+        apps = sum(1 for e in evs if e.kind == "stmt" for c in calls_in(e.node) if isinstance(c.func, ast.Attribute) and c.func.attr == "append")
+        adds = sum(1 for e in evs if e.kind == "stmt" and isinstance(e.node, ast.AugAssign) and isinstance(e.node.target, ast.Name) and e.node.target.id == c2)
+        if apps > adds or (apps == 0 and adds):
+            r.check(False, "emit-pass|append-vs-advance", wi.loc(l2), f"a path through the emission loop appends {apps} instruction(s) "
+                    f"but advances the address {adds} time(s)", None, p.labels()[:12])
+            break
+    else:
+        r.inst("emit-pass|append-vs-advance", None)
+
+
+def _rest_of_addr_rule(ctx: Ctx, r, wi, c2, l2) -> None:
+    from ..parsershape import normal_flow
+    m = ctx.model
+    st = [c for c in calls_in(wi.node) if isinstance(c.func, ast.Attribute) and c.func.attr == "write_instructions"]
+    r.check(len(st) == 1 and ast.unparse(st[0].func.value).endswith("state.instruction_memory"), "emit-pass|store", wi.loc(),
+            "instructions are not stored consecutively by instruction_memory.write_instructions")
+    wis = m.method("InstructionMemory", "write_instructions")
     t3 = " ".join(ast.unparse(wis.node).split())
     r.check("next_address = self.address_range.start" in t3 and "next_address += instr.length" in t3, "store|consecutive", wis.loc(),
             "instructions are not placed at consecutive addresses from the start of instruction memory")
-    cl = m.method("RiscvParser", "_convert_label_or_imm", own=True)
-    lf = None
-    for n in walk_no_nested(cl.node):
-        if isinstance(n, ast.Return) and n.value is not None and "labels[" in ast.unparse(n.value):
-            lf = linform(n.value)
-    r.check(lf == {"labels[instruction_parsed.label]": 1, "offset": 1, "address_count": -1}, "displacement", cl.loc(),
-            f"pc-relative operand is {lf}, expected label + offset - address")
-    # both B and J pass the address of the instruction itself
+    # ---- displacement: label + offset - address
+    cl = m.method("RiscvParser", "_convert_label_or_imm")
+    fl = normal_flow(m, cl)
+    lab_rets = [x for x in fl.returns if x.value is not None and "labels" in ast.unparse(x.value) or (x.value is not None and f"{cl.params[2]}[" in ast.unparse(x.value))]
+    ok = False
+    lfs = None
+    if len(lab_rets) == 1:
+        lfs = linform(lab_rets[0].value)
+        if lfs is not None:
+            pos = [k for k, v in lfs.items() if v == 1]
+            neg = [k for k, v in lfs.items() if v == -1]
+            ok = len(lfs) == 3 and neg == [cl.params[3]] and any(k.startswith(f"{cl.params[2]}[") and k.endswith(".label]") for k in pos) \
+                and any(".offset" in k for k in pos)
+    r.check(ok, "displacement", cl.loc(), f"pc-relative operand is {lfs}, expected labels[<entry>.label] + <offset> - address")
     n_calls = 0
     for c in calls_in(wi.node):
         if isinstance(c.func, ast.Attribute) and c.func.attr == "_convert_label_or_imm":
             n_calls += 1
-            r.check(len(c.args) >= 3 and ast.unparse(c.args[2]) == "address_count" and ast.unparse(c.args[1]) == "self.labels", f"displacement|call{n_calls}", wi.loc(c),
+            a = {p_: v for p_, v in zip(cl.params[1:], c.args)}
+            a.update({k.arg: k.value for k in c.keywords})
+            r.check(ast.unparse(a.get(cl.params[3], ast.Constant(value=None))) == c2 and
+                    ast.unparse(a.get(cl.params[2], ast.Constant(value=None))) == f"{wi.params[0]}.labels", f"displacement|call{n_calls}", wi.loc(c),
                     "the displacement is not computed against the instruction's own address / the label table")
     r.check(n_calls == 2, "displacement|sites", wi.loc(), f"{n_calls} displacement conversions (B and J expected)")
-    am = m.method("Parser", "_add_label_mapping", own=True)
+    am = m.method("Parser", "_add_label_mapping")
     r.check("self.labels[label] = value" in " ".join(ast.unparse(am.node).split()), "label-table", am.loc(), "labels are not stored under their name")
     r.floor(12)
 
@@ -384,7 +537,23 @@ def lex_rule(ctx: Ctx, ge: GrammarEval) -> None:
     r.check(not bad and n >= 14, "caseless", m.cls("RiscvParser").loc(), f"mnemonic elements {bad} are case-sensitive")
     pc = m.cls("RiscvParser")
     wi = m.method(pc, "_write_instructions", own=True)
-    r.check("instruction_map[line_parsed.mnemonic.lower()]" in " ".join(ast.unparse(wi.node).split()), "lower", wi.loc(), "mnemonics are not lower-cased before the table lookup")
+    # every key used with instruction_map (subscript or membership) is lower-cased first -- with local aliases substituted
+    from ..pathsym import sym_events
+    keys: dict = {}
+    for fn in (wi, m.method(pc, "_process_labels")):
+        for p in function_paths(fn.node):
+            for se in sym_events(p):
+                for n in ast.walk(se.node):
+                    k = None
+                    if isinstance(n, ast.Subscript) and isinstance(n.value, ast.Name) and n.value.id == "instruction_map":
+                        k = n.slice
+                    elif isinstance(n, ast.Compare) and len(n.ops) == 1 and isinstance(n.ops[0], (ast.In, ast.NotIn)) \
+                            and isinstance(n.comparators[0], ast.Name) and n.comparators[0].id == "instruction_map":
+                        k = n.left
+                    if k is not None:
+                        keys[" ".join(ast.unparse(k).split())] = (fn, n)
+    bad = [k for k in keys if not k.endswith(".lower()")]
+    r.check(bool(keys) and not bad, "lower", wi.loc(), f"mnemonics are not lower-cased before the table lookup: instruction_map is used with {bad}")
     reg = ge.get("_pattern_register")
     try:
         abi = fold_in(m, m.module("settings.settings"), ast.parse('Settings().get()["abi_names"]', mode="eval").body, m.cls("Settings"))
